@@ -370,6 +370,12 @@ func (fc *funcCtx) mergeStates(base *State, factsAt, declsAt int, states []*Stat
 			return nil, false
 		}
 		if present {
+			if sc, isSc := v.(Sc); isSc && len(sc.T) > 1500 {
+				// an ite over two long texts repeats what they share: name it, or n joins cost 2^n characters
+				c := m.freshConst("mrg", sc.S)
+				m.facts = append(m.facts, app("=", c, sc.T))
+				v = Sc{c, sc.S}
+			}
 			m.cells[k] = v
 		}
 	}
